@@ -114,7 +114,9 @@ def join(
                 else:
                     # Remove features from the feature list, if it is not in
                     # this dataset, or cannot be computed on-the-fly.
-                    for feat in features:
+                    # (Iterate over a copy, because removing items from a
+                    # list while iterating over it skips the next item.)
+                    for feat in list(features):
                         if feat not in dsc.features:
                             features.remove(feat)
                             warnings.warn(
